@@ -28,8 +28,9 @@ import (
 //           q<=0 / q>=1: exactly minimum / maximum.
 //           weighted: exact cumulative weights in big.Rat; the answer is the
 //           first value whose cumulative weight exceeds q W; when q W is
-//           within (1e-12 + 16 n eps) W of a cumulative weight both
-//           neighbouring answers are accepted (ambiguity window).
+//           within the rounding bound of a correct evaluation (c10WRel: 0,
+//           4 eps W or 4 n eps W) of a cumulative weight both neighbouring
+//           answers are accepted (ambiguity window).
 //   M-law   monotone in q over the sorted q list (slack 4 eps M); within
 //           [min,max] and within the closed interval of the two order
 //           statistics bracketing h (for any h' within 16 eps (h+1) of h),
@@ -58,8 +59,10 @@ import (
 //           b +- 2^k ulp, k = 0..35 (same tolerance: the interpolant is
 //           continuous, a result that is flat near a break point is off by
 //           (h-j) G); weighted: every probed cumulative-weight fraction f is
-//           also approached at f +- 2 rel 2^k, k = 0..19 (rel the ambiguity
-//           window, i.e. about 2e-12 .. 1e-6): outside the window, one answer.
+//           also approached at f +- 2 rel 2^k up to 1e-6 (rel the ambiguity
+//           window of the data set, 4 eps or 4 n eps) and, on weights whose
+//           sums are exact, at f +- 2^k ulp, k = 0..35: outside the window
+//           (which is empty when q W is exact too), one answer.
 //   M-scale weighted: whole weight vectors times 2^+-40, 2^+-200 (exact): the
 //           expected answers are those of the unscaled weights.
 //   M-guard Xs and Weights (with canaries before the data and in the spare
@@ -673,8 +676,7 @@ func c10UPhase(w *mon.W, d *c10UData, qs []float64, pres []*c10Guarded, sub func
 type c10WData struct {
 	xs, ws, sx, sw, px, pw []float64
 	wq                     *ref.WQ
-	rel                    float64
-	strict                 bool // small integer weights (times a power of two): dyadic q are judged without a window
+	rel                    float64 // ambiguity window of a q whose product q W is not exact (see c10WRel)
 	intW                   bool
 	cumF                   []float64 // cumulative-weight fractions, rounded (classes only)
 }
@@ -700,23 +702,55 @@ func c10NewWData(xs, base []float64, wexp int, permSeed uint64) *c10WData {
 	if len(base) != n {
 		return nil
 	}
-	ws, exact := c10Scale(base, wexp)
-	// With small integer weights (times an exact power of two) and a dyadic
-	// q every quantity of the rule (q*W, the cumulative weights, their
-	// differences) is exactly representable, so no rounding can excuse a
-	// wrong side of a tie: the statement's "exceeds" is then judged strictly
-	// (no ambiguity window).
-	strict := exact && n <= 1<<10
-	for _, x := range base {
-		if x != math.Floor(x) || x < 0 || x > 1<<20 {
-			strict = false
-		}
+	ws, _ := c10Scale(base, wexp)
+	return c10BuildWData(xs, ws, permSeed)
+}
+
+// c10WRel is the relative half-width (in units of W) of the weighted
+// ambiguity window: how far the computed comparison "cumulative weight > q W"
+// of a correct implementation can be from the real one. u = eps/2.
+//
+//   - General weights. Summing W in any order: |W'-W| <= (n-1) u W. The
+//     product fl(q W'): one more u. Deciding position k needs either a
+//     computed cumulative weight (k-1 additions, <= (n-1) u W; the same from
+//     the top as W' - suffix), or k subtractions from the target as the library
+//     does (every intermediate is at most W in magnitude: <= k u W); pairwise
+//     or compensated sums err less. Together <= (2n-1) u W + O(u^2) < n eps W.
+//     A comparison of fl(cum/W') with q, or a scan from the top against
+//     fl((1-q) W'), adds at most 2 u W. The window is 4 n eps W: four times
+//     the first-order worst case (the old constant 1e-12 was 70 times the
+//     bound at n = 4 and hid a quantisation of q to 12 decimals).
+//   - Grid weights (ref.WQ.Grid: all on one binary grid with W <= 2^53 grid
+//     steps; small integers, dyadic fractions, either times a power of two).
+//     No sum of weights rounds, whatever the order. What is left is the
+//     rounding of the product (u q W), of a quotient cum/W (u), or of 1-q and
+//     (1-q) W (1.5 u W), none of which grows with n; subtracting grid sums
+//     from a float target is exact while the difference is positive and
+//     sign-preserving when it turns negative. Window 4 eps W = 8 u W.
+//   - Grid weights and q W, 1-q, (1-q) W all exactly representable: every
+//     one of those evaluations computes with the real numbers themselves.
+//     Window 0: the statement's "exceeds" is judged strictly, on a tie and
+//     any number of ulps beside it.
+func (d *c10WData) c10WRel(q float64) float64 {
+	if !(q > 0 && q < 1) {
+		return 0
 	}
-	return c10BuildWData(xs, ws, strict, permSeed)
+	if prod, compl := d.wq.QExact(q); prod && compl {
+		return 0
+	}
+	return d.rel
+}
+
+// c10WBaseRel is the window of a data set for a q with an inexact product.
+func c10WBaseRel(wq *ref.WQ, n int) float64 {
+	if wq.Grid {
+		return 4 * c10Eps
+	}
+	return 4 * float64(n) * c10Eps
 }
 
 // c10BuildWData: ws are the weights as presented (already scaled).
-func c10BuildWData(xs, ws []float64, strict bool, permSeed uint64) *c10WData {
+func c10BuildWData(xs, ws []float64, permSeed uint64) *c10WData {
 	n := len(xs)
 	if len(ws) != n {
 		return nil
@@ -726,7 +760,8 @@ func c10BuildWData(xs, ws []float64, strict bool, permSeed uint64) *c10WData {
 			return nil
 		}
 	}
-	d := &c10WData{xs: xs, ws: ws, wq: ref.NewWQ(xs, ws), rel: 1e-12 + 16*float64(n)*c10Eps, strict: strict}
+	d := &c10WData{xs: xs, ws: ws, wq: ref.NewWQ(xs, ws)}
+	d.rel = c10WBaseRel(d.wq, n)
 	tw, _ := d.wq.W.Float64()
 	d.cumF = make([]float64, len(d.wq.Cum))
 	for k, cw := range d.wq.Cum {
@@ -751,13 +786,13 @@ func c10BuildWData(xs, ws []float64, strict bool, permSeed uint64) *c10WData {
 	return d
 }
 
-// besideCum: q is within 1e-6 of a cumulative-weight fraction without being
-// (to rounding) that fraction.
-func (d *c10WData) besideCum(q float64) bool {
+// besideCum: q is within max of a cumulative-weight fraction, more than rel
+// and more than 3/4 ulp away from it (cumF is rounded: not the fraction itself).
+func (d *c10WData) besideCum(q, rel, max float64) bool {
 	k := sort.SearchFloat64s(d.cumF, q)
 	for _, j := range []int{k - 1, k} {
 		if j >= 0 && j < len(d.cumF) {
-			if dist := math.Abs(q - d.cumF[j]); dist > d.rel && dist <= 1e-6 {
+			if dist := math.Abs(q - d.cumF[j]); dist > rel && dist > 0.75*(math.Nextafter(q, 2)-q) && dist <= max {
 				return true
 			}
 		}
@@ -773,14 +808,6 @@ func (d *c10WData) arr(k int) (xs, ws []float64) {
 		return d.px, d.pw
 	}
 	return d.sx, d.sw
-}
-
-func (d *c10WData) exactQ(q float64) bool {
-	if !d.strict {
-		return false
-	}
-	_, e := math.Frexp(q) // q = m * 2^e, dyadic with few bits?
-	return e > -24 && q*float64(1<<24) == math.Floor(q*float64(1<<24))
 }
 
 // tieAt reports whether q*W is exactly a cumulative weight (reference side).
@@ -914,7 +941,7 @@ func c10WPartial(w *mon.W, c c10Case, d *c10WData, pres []*c10Guarded) {
 		if g.s.Sorted {
 			nx = sx2
 		}
-		dB := c10BuildWData(nx, awA, dA.strict, c.PermSeed)
+		dB := c10BuildWData(nx, awA, c.PermSeed)
 		g.loadX(nx)
 		c10WPhase(w, dB, qs2, one(g), whole, c10TagXOnly)
 
@@ -957,13 +984,14 @@ func c10WPhase(w *mon.W, d *c10WData, qs []float64, pres []*c10Guarded, sub func
 		return false
 	}
 	for _, q := range qs {
-		relq := d.rel
-		if d.exactQ(q) {
-			relq = 0
-		}
+		relq := d.c10WRel(q)
 		lo, hi := wq.Cands(q, relq)
-		if relq == 0 && q > 0 && q < 1 && d.tieAt(q) {
-			w.Hit("weighted-exact-tie-judged-strictly")
+		if relq == 0 && q > 0 && q < 1 {
+			if d.tieAt(q) {
+				w.Hit("weighted-exact-tie-judged-strictly")
+			} else {
+				w.HitIf(d.besideCum(q, 0, 1e-12), "weighted-q-beside-cum(exact arithmetic, within 1e-12, judged strictly)")
+			}
 		}
 		w.HitIf(q < 0, "weighted-q<0")
 		w.HitIf(q > 1, "weighted-q>1")
@@ -972,7 +1000,10 @@ func c10WPhase(w *mon.W, d *c10WData, qs []float64, pres []*c10Guarded, sub func
 			w.Note("weighted-ambiguous")
 		} else {
 			w.Note("weighted-unambiguous")
-			w.HitIf(q > 0 && q < 1 && d.besideCum(q), "weighted-q-beside-cum(outside window, within 1e-6)")
+			if q > 0 && q < 1 {
+				w.HitIf(d.besideCum(q, relq, 1e-6), "weighted-q-beside-cum(outside window, within 1e-6)")
+				w.HitIf(d.besideCum(q, relq, 1e-12), "weighted-q-beside-cum(outside window, within 1e-12)")
+			}
 		}
 		for _, g := range pres {
 			got, ok := call(g, q)
@@ -995,13 +1026,10 @@ func c10WPhase(w *mon.W, d *c10WData, qs []float64, pres []*c10Guarded, sub func
 	}
 	// IQR: against the rule (quartiles judged strictly when exact) and
 	// against the library's own two quartiles (the statement's law, bit-exact)
-	relq := d.rel
-	if d.exactQ(0.25) && d.exactQ(0.75) {
-		relq = 0
-		w.HitIf(d.tieAt(0.25) || d.tieAt(0.75), "weighted-IQR-exact-tie-judged-strictly")
-	}
-	lo75, hi75 := wq.Cands(0.75, relq)
-	lo25, hi25 := wq.Cands(0.25, relq)
+	rel25, rel75 := d.c10WRel(0.25), d.c10WRel(0.75)
+	w.HitIf(rel25 == 0 && d.tieAt(0.25) || rel75 == 0 && d.tieAt(0.75), "weighted-IQR-exact-tie-judged-strictly")
+	lo75, hi75 := wq.Cands(0.75, rel75)
+	lo25, hi25 := wq.Cands(0.25, rel25)
 	for _, g := range pres {
 		var iqr float64
 		w.Eval("IQR(weighted)")
@@ -1188,9 +1216,14 @@ func c10Rung(rng *mon.Rand, b float64) float64 {
 }
 
 // c10WRung is a point beside the cumulative-weight fraction f, outside the
-// ambiguity window rel: at distance 2 rel 2^k, k = 0..19 (about 2e-12 .. 1e-6).
+// ambiguity window rel: at distance 2 rel 2^k, from 2 rel up to about 1e-6
+// (rel = 4 eps: k = 0..29, 1.8e-15 .. 1e-6; rel = 800 eps: k = 0..21).
 func c10WRung(rng *mon.Rand, f, rel float64) float64 {
-	d := math.Ldexp(2*rel, rng.Intn(20))
+	kmax := 0
+	for math.Ldexp(2*rel, kmax+1) <= 1e-6 {
+		kmax++
+	}
+	d := math.Ldexp(2*rel, rng.Intn(kmax+1))
 	if rng.Intn(3) != 0 { // below: the cumulative weight there does exceed q W
 		return f - d
 	}
@@ -1266,13 +1299,13 @@ func c10ShortQs(rng *mon.Rand, n int) []float64 {
 }
 
 func c10Run(r *mon.Run) {
-	r.Rule("random: samples of n=1..200 (sizes 1,2,3 / 5,21,85 / 198..200 forced on fixed index residues) from 13 value families (repeats, all-equal, two-valued, offsets 1e3..1e12, magnitudes 1e-300..1e300, subnormal, +-1e307, same-sign 1e307..MaxFloat64, pre-sorted, descending) x 44 q (0, 1, quartiles, +-1ulp around 0 and 1, q<0, q>1, nearest float to break points (3j-1)/(3n+1) and its neighbours incl. both clamp boundaries, 6 points 2^k ulp (k=0..35) beside break points, inside both clamp regions, uniform); every q on 7 presentations (given order, second permutation, sorted with Sorted=true, sorted with Sorted=false; library Copy(), library Copy()+Sort(), hand-built sample after its own Sort()) + IQR on each. breaks: every n=1..200 x every break point j=1..n x {nearest float, +-1ulp} and for a quarter of them one point 2^k ulp away. exhaustive: all sequences over a 3 (thorough 4) letter alphabet up to length 5 (thorough 7), i.e. all permutations of all such multisets. weighted: n=1..200, integer/unit/real/dyadic/dominant weights, values with and without ties, q at cumulative-weight fractions (ambiguity window), 1e-9 beside them, 2 rel 2^k (k=0..19) beside them, and uniform; a third of the weight vectors times 2^+-40 or 2^+-200. reuse / reuse-weighted: 12 q on 7 presentations, then the same 7 backing arrays overwritten in place with another sample of the same length (other weights and scale) and 12 q again, then the two samples alternating twice through each buffer (3 q + IQR directly after each overwrite). partial / partial-serial (weighted, 3 of the presentations): Weights array alone overwritten, second Sample values sharing the Xs slice (other Weights; none), Xs array alone overwritten, second Sample value sharing the Weights slice; owner and sharer queried in turn. empty: 8 variants x 11 q. Non-trivial = hits a class; distinct by hash of (xs,ws,qs).")
+	r.Rule("random: samples of n=1..200 (sizes 1,2,3 / 5,21,85 / 198..200 forced on fixed index residues) from 13 value families (repeats, all-equal, two-valued, offsets 1e3..1e12, magnitudes 1e-300..1e300, subnormal, +-1e307, same-sign 1e307..MaxFloat64, pre-sorted, descending) x 44 q (0, 1, quartiles, +-1ulp around 0 and 1, q<0, q>1, nearest float to break points (3j-1)/(3n+1) and its neighbours incl. both clamp boundaries, 6 points 2^k ulp (k=0..35) beside break points, inside both clamp regions, uniform); every q on 7 presentations (given order, second permutation, sorted with Sorted=true, sorted with Sorted=false; library Copy(), library Copy()+Sort(), hand-built sample after its own Sort()) + IQR on each. breaks: every n=1..200 x every break point j=1..n x {nearest float, +-1ulp} and for a quarter of them one point 2^k ulp away. exhaustive: all sequences over a 3 (thorough 4) letter alphabet up to length 5 (thorough 7), i.e. all permutations of all such multisets. weighted: n=1..200, integer/unit/real/dyadic/dominant weights, values with and without ties, q at cumulative-weight fractions and +-1 ulp, 1e-9 beside them, 2 rel 2^k (from 2 rel to 1e-6; rel = 4 eps on weights with exact sums, else 4 n eps) beside them, 2^k ulp (k=0..35) beside them on weights with exact sums, and uniform; a third of the weight vectors times 2^+-40 or 2^+-200. reuse / reuse-weighted: 12 q on 7 presentations, then the same 7 backing arrays overwritten in place with another sample of the same length (other weights and scale) and 12 q again, then the two samples alternating twice through each buffer (3 q + IQR directly after each overwrite). partial / partial-serial (weighted, 3 of the presentations): Weights array alone overwritten, second Sample values sharing the Xs slice (other Weights; none), Xs array alone overwritten, second Sample value sharing the Weights slice; owner and sharer queried in turn. empty: 8 variants x 11 q. Non-trivial = hits a class; distinct by hash of (xs,ws,qs).")
 	r.Assume("sample values finite with |x|<=1e307, or all of one sign up to MaxFloat64 (gaps between order statistics do not overflow); weights positive and finite; NaN/Inf q, NaN data, negative or zero weights, len(Weights)!=len(Xs) and Sorted=true on unsorted data are outside the statement",
 		"unweighted tolerance 16 eps ((h+1) G + M) + 4e-323: G largest gap of the segment and its neighbours, M largest magnitude of the order statistics involved; containment in [min,max] and in the bracketing order statistics (h +- 16 eps (h+1)) is exact",
-		"weighted ambiguity window (1e-12 + 16 n eps) W around every cumulative weight: both neighbouring values accepted")
+		"weighted ambiguity window around every cumulative weight (both neighbouring values accepted): 4 n eps W (4x the first-order rounding bound of W, q W and n partial sums or subtractions in any order); 4 eps W when all weights lie on one binary grid with W <= 2^53 steps (no sum rounds); none when moreover q W, 1-q and (1-q) W are exactly representable")
 	r.Gate("library-built(Copy)", "library-built(Copy+Sort)", "library-built(Sort in place)",
 		"weights-only-overwrite(Xs untouched)", "xs-only-overwrite(Weights untouched)", "shared-Xs-second-sample", "shared-Weights-second-sample", "shared-Xs-unweighted-view",
-		"q-near-break(2..2^35 ulp)", "weighted-q-beside-cum(outside window, within 1e-6)",
+		"q-near-break(2..2^35 ulp)", "weighted-q-beside-cum(outside window, within 1e-6)", "weighted-q-beside-cum(outside window, within 1e-12)", "weighted-q-beside-cum(exact arithmetic, within 1e-12, judged strictly)",
 		"huge-same-sign(|x|>1e307)", "equal-neighbours(exact answer)", "buffer-reuse(in-place overwrite)", "buffer-alternation", "buffer-reuse-weighted(in-place overwrite)",
 		"weights-scaled-down(2^-40|2^-200)", "weights-scaled-up(2^40|2^200)", "weighted-IQR-exact-tie-judged-strictly",
 		"weighted-exact-tie-judged-strictly", "q-at-break(+-1ulp)", "h-exact-integer", "q<0", "q>1", "q=0|1", "n=1", "n=2", "n>=150", "clamp-low(h<1)", "clamp-high(h>=n)",
@@ -1359,10 +1392,15 @@ func c10Run(r *mon.Run) {
 		wq := ref.NewWQ(xs, ws) // cumulative-weight fractions do not depend on the scale
 		qs := []float64{0, 1, 0.25, 0.5, 0.75, -0.5, 1.5, rng.Uniform(-0.5, 0), 1 + rng.Uniform(0, 0.5) + 1e-9,
 			math.Nextafter(0, 1), math.Nextafter(1, 0), 1e-300}
-		rel := 1e-12 + 16*float64(n)*c10Eps
+		rel := c10WBaseRel(wq, n)
 		for k := 0; k < 6; k++ {
 			f := wq.CumQ(rng.Intn(len(wq.Vals)))
-			qs = append(qs, c10Near(rng, f), f-1e-9, f+1e-9, c10WRung(rng, f, rel))
+			qs = append(qs, c10Near(rng, f), f+rng.Sign()*1e-9, c10WRung(rng, f, rel))
+			if wq.Grid && f > 0 && f < 1 { // sums exact: a ladder in ulps, judged strictly where q W is exact too
+				qs = append(qs, c10Rung(rng, f))
+			} else {
+				qs = append(qs, c10WRung(rng, f, rel))
+			}
 		}
 		for len(qs) < 40 {
 			qs = append(qs, rng.Float64())
@@ -1409,7 +1447,7 @@ func c10Run(r *mon.Run) {
 		ws, ws2 := c10Weights(rng, n, rng.Intn(6)), c10Weights(rng, n, rng.Intn(6))
 		qs2 := c10ShortQs(rng, n)[:8]
 		wq := ref.NewWQ(xs, ws2)
-		rel := 1e-12 + 16*float64(n)*c10Eps
+		rel := c10WBaseRel(wq, n)
 		for k := 0; k < 2; k++ {
 			f := wq.CumQ(rng.Intn(len(wq.Vals)))
 			qs2 = append(qs2, c10Near(rng, f), c10WRung(rng, f, rel))
